@@ -2,7 +2,8 @@
 (* Validation of recorded traces against the observable content of Session.tla:      *)
 (* the keyspace / version / compression a client's requests are executed with.        *)
 (* Events (normalised by checks/c07.py): Hello(c, ver, comp), Use(c, folded, valid),  *)
-(* UseReply(c, kind, ks, msgok), Submit(c, r), Take(r, ks, ver, comp).                *)
+(* UseReply(c, kind, ks, msgok), Submit(c, r), Take(r, ks, ver, comp),               *)
+(* DataReply(r, kind).                                                                *)
 EXTENDS Naturals, Sequences, FiniteSets, TLC, Json
 
 TraceLog == ndJsonDeserialize("trace.ndjson")
@@ -42,6 +43,11 @@ Step(e) ==
             /\ UNCHANGED rq
       [] e.ev = "Submit" -> /\ rq' = (e.r :> [c |-> e.c, ks |-> cl[e.c].ks, ver |-> cl[e.c].ver, comp |-> cl[e.c].comp]) @@ rq
                             /\ UNCHANGED <<cl, bad>>
+      [] e.ev = "DataReply" ->
+            \* the backend answers every data request of this driver successfully, so anything but its result means the
+            \* request was not executed for the client (e.g. refused because its session could not be created)
+            /\ bad' = Flag(e.kind = "ok", "C07", "data request after a successful USE was not executed (answered " \o e.kind \o ")", e.r)
+            /\ UNCHANGED <<cl, rq>>
       [] e.ev = "Take" ->
             IF e.r \notin DOMAIN rq THEN bad' = Flag(FALSE, "HARNESS", "take for unknown request", e.r) /\ UNCHANGED <<cl, rq>>
             ELSE
